@@ -31,6 +31,15 @@ theorem normalizeNearSrc_eq (now prev : R) : SrcCtl.normalizeNearSrc now prev = 
 theorem comparePosesSrc_eq (ta tb : Iso R) (dT aT : R) :
     SrcCtl.comparePosesSrc (ta.t.sub tb.t).norm (Quat.angleTo ta.q tb.q) dT aT = comparePoses ta tb dT aT := rfl
 
+/-- `kinematic_singularity` (`Some(Singularity::A)` read as `true`) -/
+theorem kinematicSingularitySrc_eq (p : Params R) (j : J6 R) :
+    SrcCtl.kinematicSingularitySrc p j = kinematicSingularity p j := by
+  simp only [SrcCtl.kinematicSingularitySrc, kinematicSingularity, isCloseToMultipleOfPiSrc_eq]
+  by_cases h : isCloseToMultipleOfPi (j.j5 * p.signs.j5 - p.offsets.j5) singThr = true
+  · simp [h]
+  · have h' : isCloseToMultipleOfPi (j.j5 * p.signs.j5 - p.offsets.j5) singThr = false := by simpa using h
+    simp [h']
+
 /-- `inside_bounds` -/
 theorem insideBoundsSrc_eq (angle centre tol : R) :
     SrcCtl.insideBoundsSrc angle centre tol = insideBounds angle centre tol := rfl
